@@ -3,7 +3,7 @@
 preserve must stay silent (an alarm is either a real violation the agent overlooked, or a false alarm / a white-box
 dependence of the machinery - every such case is analysed by hand).
 
-usage: eval_preserving.py <PROP> <out_dir> [--scale S] [--checks C02,C07] [--only 1,2]
+usage: eval_preserving.py <PROP> <out_dir> [--scale S] [--checks C02,C07] [--only 1,2] [--offset 3]
 Stores /verif/preserving/<PROP>-<k>/{patch.diff, demo.py, notes.md, meta.json}.
 """
 import json
@@ -27,6 +27,7 @@ def main():
     checks = (arg("--checks") or prop).split(",")
     ks = sorted(int(f.split("_")[1].split(".")[0]) for f in os.listdir(out) if f.startswith("patch_") and f.endswith(".diff"))
     only = arg("--only")
+    offset = int(arg("--offset", "0"))  # round 2 is stored as <PROP>-4..6
     if only:
         ks = [k for k in ks if str(k) in only.split(",")]
     for k in ks:
@@ -37,7 +38,8 @@ def main():
         sh(["git", "-C", "/repo", "worktree", "remove", "--force", wt])
         shutil.rmtree(wt, ignore_errors=True)
         sh(["git", "-C", "/repo", "worktree", "add", "-q", "--detach", wt, "HEAD"])
-        meta = {"property_to_preserve": prop, "k": k}
+        kk = k + offset
+        meta = {"property_to_preserve": prop, "k": kk, "round": 1 + (kk - 1) // 3}
         try:
             env = dict(os.environ, PYTHONPATH=wt)
             before = sh([PY, demo], cwd=wt, env=env, timeout=1200) if os.path.exists(demo) else None
@@ -72,9 +74,9 @@ def main():
                 shutil.rmtree(wt + "_ev", ignore_errors=True)
                 shutil.rmtree(wt + "_rp", ignore_errors=True)
             meta["checks"] = results
-            print(f"{prop}-R{k}: tests_pass={t.returncode == 0} demo_identical={same} lines={meta['diff_lines']} -> "
+            print(f"{prop}-R{kk}: tests_pass={t.returncode == 0} demo_identical={same} lines={meta['diff_lines']} -> "
                   + ", ".join(f"{c}:{v['verdict']}{v['kinds'][:2] if v['kinds'] else ''}" for c, v in results.items()), flush=True)
-            dst = f"/verif/preserving/{prop}-{k}"
+            dst = f"/verif/preserving/{prop}-{kk}"
             os.makedirs(dst, exist_ok=True)
             shutil.copy(patch, os.path.join(dst, "patch.diff"))
             if os.path.exists(demo):
